@@ -29,8 +29,11 @@ def world_exe(world, backend='asm', shares=(4, 2, 4), flavour='rel'):
     return exe
 
 
+RNG_SEAM = dict(extra_src=[os.path.join(S, 'simrng.c')], ldflags=['-Wl,--wrap=getrandom'])
+
 WORLDS = {
     'stream': {},
+    'channel': dict(RNG_SEAM),
 }
 
 
@@ -86,10 +89,51 @@ def check_C07(tier, seed):
     return o.finish()
 
 
+CHANNEL_STUB = ['the network between the two endpoints (packet pool: loss, duplication, reordering, corruption, '
+                'truncation, extension, key/nonce desynchronisation)',
+                'getrandom() (deterministic tape; only the masked families draw from it)']
+
+
+def check_C02(tier, seed):
+    o = D.Outcome('C02', tier, seed)
+    o.components = dict(real=COMPONENTS_LIB['real'], stub=CHANNEL_STUB)
+    o.assumptions = ['ledger oracle: a delivery must be accepted iff (key, nonce, AD, ciphertext||tag) equals the tuple of '
+                     'an encryption the sender performed; accidental forgery (2^-128) is ignored',
+                     'judged on the C entry points (one-shot, incremental, masked, SIV, ISAP) where the nonce in use is '
+                     'passed or publicly readable; the C++ wrappers are judged under C14/C17',
+                     'wipe-on-failure is demanded for one-shot decrypts with clen >= 16 only, as the property states']
+    n = 60000 if tier == 'quick' else 1500000
+    cfgs = [('asm', (4, 2, 4))] if tier == 'quick' else [('asm', (4, 2, 4)), ('c64', (4, 2, 4)), ('c32', (3, 3, 3)), ('gen', (2, 1, 2))]
+    for i, (be, sh) in enumerate(cfgs):
+        exe = world_exe('channel', be, sh, 'rel')
+        o.add(D.run_batch(exe, n if i == 0 else n // 5, tier, seed, label='channel@%s-%d%d%d' % (be, *sh), crash_prop='C12'))
+    o.extra['distinct_states_measure'] = 'visited (event kind, family class, fault kind, accept/reject, length class) tuples'
+    return o.finish()
+
+
+def check_C14(tier, seed):
+    o = D.Outcome('C14', tier, seed)
+    o.components = dict(real=COMPONENTS_LIB['real'], stub=CHANNEL_STUB)
+    o.assumptions = ['128-bit big-endian counter model (unsigned __int128) in the harness',
+                     'substrate for "packet i equals the one-shot result under N+i" is the library\'s own one-shot function',
+                     'C++ objects are keyed by default construction + set_key(full length); an object whose first packet under '
+                     'an explicit 16-byte nonce is already wrong is not judged here (that is C17 matter)']
+    n = 60000 if tier == 'quick' else 1500000
+    cfgs = [('asm', (4, 2, 4))] if tier == 'quick' else [('asm', (4, 2, 4)), ('c64', (4, 2, 4)), ('gen', (2, 1, 2))]
+    for i, (be, sh) in enumerate(cfgs):
+        exe = world_exe('channel', be, sh, 'rel')
+        o.add(D.run_batch(exe, n if i == 0 else n // 5, tier, seed, label='channel@%s-%d%d%d' % (be, *sh), crash_prop='C12'))
+    o.extra['distinct_states_measure'] = 'visited (event kind, family class, fault kind, accept/reject, length class, starting carry chain) tuples'
+    return o.finish()
+
+
 CHECKS = {
+    'C02': check_C02,
     'C07': check_C07,
+    'C14': check_C14,
 }
 
 SETUP_BUILDS = [
     lambda: world_exe('stream'),
+    lambda: world_exe('channel'),
 ]
